@@ -166,3 +166,17 @@ def Line.copy (l : Line) : Line := { l with args := l.args.map id, tags := l.tag
 def recvTrim (s : Bytes) : Bytes := trimCRLF s
 
 end Go
+
+namespace Go
+
+/-- the framing loop of `recv`: `ReadString('\n')` cuts the byte stream after every LF; each piece is
+then `strings.Trim(s, "\r\n")`-med; bytes after the last LF are not a line yet (at EOF `ReadString`
+returns them together with the error, and `recv` leaves without using them) -/
+def recvFramesAux : Bytes → Bytes → List Bytes
+  | _, [] => []
+  | acc, 10 :: rest => recvTrim (acc.reverse ++ [10]) :: recvFramesAux [] rest
+  | acc, b :: rest => recvFramesAux (b :: acc) rest
+
+def recvFrames (stream : Bytes) : List Bytes := recvFramesAux [] stream
+
+end Go
